@@ -26,7 +26,7 @@ _BIN = {ast.Add: op.add, ast.Sub: op.sub, ast.Mult: op.mul, ast.FloorDiv: op.flo
 _CMP = {ast.Eq: op.eq, ast.NotEq: op.ne, ast.Lt: op.lt, ast.LtE: op.le, ast.Gt: op.gt, ast.GtE: op.ge,
         ast.Is: op.is_, ast.IsNot: op.is_not, ast.In: lambda a, b: a in b, ast.NotIn: lambda a, b: a not in b}
 _METHODS = {"keys", "values", "items", "get", "index", "count"}
-_CALLS = {"reversed": lambda x: tuple(reversed(tuple(x))), "all": all, "any": any, "sum": sum, "frozenset": frozenset, "len": len, "abs": abs, "min": min, "max": max, "bool": bool, "int": int, "range": range,
+_CALLS = {"float": float, "complex": complex, "str": str, "isinstance": isinstance, "reversed": lambda x: tuple(reversed(tuple(x))), "all": all, "any": any, "sum": sum, "frozenset": frozenset, "len": len, "abs": abs, "min": min, "max": max, "bool": bool, "int": int, "range": range,
           "set": set, "tuple": tuple, "sorted": sorted, "list": list}
 
 
